@@ -14,3 +14,6 @@ Definition stv (v : tv) : string :=
   | VArr l => sp "arr" (map sN l) | VDelta f t => sp "delta" [sN f; sN t]
   end.
 Definition stable (t : table) : string := sp "table" (map (fun '(k, v) => sp (skey k) [stv v]) t).
+
+Definition spkeys (l : list (list chr * option vetver)) : string :=
+  sp "keys" (map (fun '(n, v) => sp "k" (map sN (pkey_encode n v))) l).
